@@ -452,6 +452,7 @@ return _ROW
     # also with the single-definition locals (a cached prefix) written out and the spelled-out defaults (prefix=None) left out
     ok = has(dv.node, DV_PATTERN) or has(_without_default_args(prog, _inlined(dv.node)), unparse(_without_default_args(prog, ast.parse(DV_PATTERN))))
     wrongp = None
+    shared = None
     if not ok:
         # the contradiction: the prefix given to rename_elementary in the loop over one sample has a KNOWN value (a literal, the
         # default None, a module constant, possibly through a local) and that value is not the prefix of that sample
@@ -465,6 +466,23 @@ return _ROW
                 bound = _bind(prog, c_)
                 if bound is None:
                     continue  # arguments the rule cannot name: no verdict
+                # the contradiction "one object for all the positions": rename_elementary renames its receiver IN PLACE.  When the
+                # suffix depends on the position and the receiver is a local that nothing binds inside the loop over the positions
+                # (nearest enclosing loop of the call), the expression renamed - and stored - for position i is the object already
+                # renamed for the positions before: it is not a copy of the formula made for that position
+                recv = c_.func.value
+                inner = [x for x in ast.walk(lp_) if isinstance(x, (ast.For, ast.While, ast.AsyncFor)) and x is not lp_ and any(y is c_ for y in ast.walk(x))]
+                if isinstance(recv, ast.Name) and isinstance(lp_.target, ast.Name) and not inner and not shared and 'suffix' in bound \
+                        and any(isinstance(y, ast.Name) and y.id == lp_.target.id for y in ast.walk(inline_locals(dv.node, bound['suffix']))) \
+                        and not any(isinstance(y, ast.Name) and y.id == recv.id and not isinstance(y.ctx, ast.Load) for y in ast.walk(lp_)) \
+                        and not any(isinstance(y, (ast.Global, ast.Nonlocal)) and recv.id in y.names for y in ast.walk(dv.node)):
+                    outside = [y for y in ast.walk(dv.node) if isinstance(y, ast.Assign) and any(isinstance(t_, ast.Name) and t_.id == recv.id for t_ in y.targets) and y.lineno < lp_.lineno]
+                    outside.sort(key=lambda y: y.lineno)
+                    if outside:
+                        shared = ((dv.file, c_.lineno), f'`{recv.id}.rename_elementary(..., suffix={unparse(bound["suffix"])})` renames in place, for every position {lp_.target.id} of the '
+                                  f'{"second" if second else "main"} sample, the one object `{recv.id}` bound before the loop (line {outside[-1].lineno}: {unparse(outside[-1])[:60]}); it is not a copy of the '
+                                  f'formula made for that position: the renamings of the earlier positions are already applied (the original attribute names are gone), '
+                                  f'so the combined variable of position {lp_.target.id} >= 1 does not read the attributes <attr>_<{lp_.target.id}> of its own alternative')
                 pre = unparse(bound['prefix']) if 'prefix' in bound else None
                 val = ('known', None) if pre is None else _known(prog, G.module, dv.node, bound['prefix'])
                 if val is None or mev is None:
@@ -474,7 +492,10 @@ return _ROW
                     wrongp = f'for the second sample the attributes are renamed with prefix={shown}: the combined variable {"{MEV_PREFIX}"}<name>_<i> then reads the attributes <attr>_<i> of the alternative at position i of the MAIN sample'
                 elif not second and isinstance(val[1], str) and val[1] != '':
                     wrongp = f'for the main sample the attributes are renamed with prefix={shown}: the combined variable <name>_<i> does not read the attributes <attr>_<i> of the main sample'
-    ctx.add('C19.R2', 'define_new_variables', ok if (ok or wrongp) else None, dv, wrongp if wrongp else 'combined variable j of alternative i reads the attributes with suffix _i (MEV prefix for the second sample) and is stored under the same scheme' if ok else 'naming of the combined variables changed', 'define', positive=bool(wrongp))
+    if shared and not wrongp:
+        ctx.add('C19.R2', 'define_new_variables', False, shared[0], shared[1], 'define', positive=True)
+    else:
+        ctx.add('C19.R2', 'define_new_variables', ok if (ok or wrongp) else None, dv, wrongp if wrongp else 'combined variable j of alternative i reads the attributes with suffix _i (MEV prefix for the second sample) and is stored under the same scheme' if ok else 'naming of the combined variables changed', 'define', positive=bool(wrongp))
     M = prog.cls(GM, 'GenerateModel')
     init = M.methods['__init__']
     # the constructor is read with its own attributes written out in terms of its parameters (`self.context = context` makes
